@@ -157,12 +157,12 @@ Definition redundant_count (c : gcfg) (g : group) : N :=
   | Under _ => 0
   | Over rf =>
       let rf := N.max rf 1 in
-      match roots c with
-      | [] => N.of_nat (length (gfiles g)) - rf                      (* the fast path (K8) *)
-      | _ => let sgs := subgroups (roots c) (by_id c) (gfiles g) in
-             let cutoff := N.min rf (N.of_nat (length sgs)) in
-             nsum (map (fun sg => N.of_nat (length sg)) (skipn (N.to_nat cutoff) sgs))
-      end
+      (* fast path only without roots and with --match-links, where every path is its own replica (3bd9c91) *)
+      if nonempty (roots c) || by_id c then
+        let sgs := subgroups (roots c) (by_id c) (gfiles g) in
+        let cutoff := N.min rf (N.of_nat (length sgs)) in
+        nsum (map (fun sg => N.of_nat (length sg)) (skipn (N.to_nat cutoff) sgs))
+      else N.of_nat (length (gfiles g)) - rf
   end.
 Definition sort_by_id (fs : list file) : list file :=
   isort (fun a b => cmp_leb (fid_cmp (fid a) (fid b))) fs.
